@@ -121,8 +121,13 @@ def run_undisturbed(ctx, desc):
         for seqname in SEQS:
             for crc_req, crc_sup in ((True, True), (False, True), (True, False)):
                 style = rng.choice(["whole", "whole", "raw7", "chunks"])
-                backend = rng.choice(["listener", "listener", "notify-reuse"])
-                rig = make_rig(seqname, crc_sup, backend)
+                backend = rng.choice(["listener", "listener", "notify-reuse", "queued-send"])
+                rig = make_rig(seqname, crc_sup, "listener" if backend == "queued-send" else backend)
+                if backend == "queued-send":
+                    # a driver that queues the message objects it is given and transmits them a moment later from its own
+                    # thread (time-outs are irrelevant here: 10 s)
+                    rig.station.queued_send = True
+                    rig.sdo.RESPONSE_TIMEOUT = 10.0
                 c = {"kind": "undisturbed", "n": n, "seq": seqname, "crc": crc_req, "crc_support": crc_sup, "style": style,
                      "seed": rng.randint(0, 1 << 30), "mux": [rng.choice([0x1F50, 0x2000, 0xFFFF]), rng.choice([0, 1, 255])],
                      "backend": backend}
